@@ -1114,6 +1114,10 @@ func (env *Env) evalCall(e *E) SV {
 				v = env.convert(v, ty.TypeV)
 			}
 			return SV{V: Scalar{ex.makeIface(env.s, ty.TypeV, v.V)}, T: types.NewInterfaceType(nil, nil)}
+		case "sepCount":
+			// number of separators bytes.Split finds in its argument (A-SPLIT)
+			a := env.term(env.eval(args[0]))
+			return SV{V: Scalar{App(SBV(64), "sep_count", a)}, T: types.Typ[types.Int]}
 		case "bytesEq":
 			a, b := env.term(env.eval(args[0])), env.term(env.eval(args[1]))
 			return SV{V: Scalar{env.bytesEq(a, b)}, T: boolT}
